@@ -70,6 +70,8 @@ def main():
     nj = 4
     only = None
     props = ALL
+    extra = None
+    kind = "preserve"
     i = 0
     while i < len(a):
         if a[i] == "-j":
@@ -78,9 +80,16 @@ def main():
             only = a[i + 1].split(","); i += 2
         elif a[i] == "--props":
             props = a[i + 1].split(","); i += 2
+        elif a[i] == "--patch":      # ad-hoc: --patch FILE[,FILE…] --kind preserve | --kind C07  (nothing is recorded)
+            extra = a[i + 1].split(","); i += 2
+        elif a[i] == "--kind":
+            kind = a[i + 1]; i += 2
         else:
             raise SystemExit("bad arg " + a[i])
     js = [j for j in jobs() if only is None or any(o in j[0] for o in only)]
+    if extra:
+        only = ["ad-hoc"]
+        js = [("adhoc/" + os.path.basename(os.path.dirname(f)) + "-" + os.path.basename(f), f, "preserve" if kind == "preserve" else "break", [] if kind == "preserve" else kind.split("+")) for f in extra]
     slots = list(range(nj))
     results = []
 
